@@ -190,7 +190,7 @@ def run(tier: str) -> int:
     mk = lambda name, gen, inputs, **kw: engine.Profile(name, gen, cfg, inputs, ORACLES, compare_filter=keep_line, **kw)
 
     def sysgen(rng, tier):
-        return corpus.systematic(rng, 'ts', lambda k, f: True, True, max_grammars=(22 if tier == 'quick' else 140),
+        return corpus.systematic(rng, 'ts', lambda k, f: f != 'state', True, max_grammars=(22 if tier == 'quick' else 140),
                                  ctx_names=['top', 'sor-first', 'seq-tail', 'in-at', 'in-not_at', 'in-tcrf', 'in-opt'],
                                  actions=lambda r, g, roots: corpus.attach_actions(r, g, r.choice(['none', 'bool', 'throw'])))
 
